@@ -477,7 +477,13 @@ pub fn run(ctx: &Ctx) -> Rep {
             rng.shuffle(&mut shuffled);
             let mut asc = w;
             asc.reverse();
-            for arr in [w, asc, shuffled] {
+            let mut flagged = shuffled;
+            for x in flagged.iter_mut() {
+                if rng.chance(1, 2) {
+                    *x |= (1 + rng.below(7) as u32) << 29;
+                }
+            }
+            for arr in [w, asc, shuffled, flagged] {
                 for f in 0..3 {
                     let cc = construct(5, f, &arr);
                     st.rep.evaluations += 1;
@@ -511,9 +517,18 @@ pub fn run(ctx: &Ctx) -> Rep {
                 }
             }
             let mut w: Vec<u32> = cards.iter().map(|&i| crate::model::word(i)).collect();
-            for arrangement in 0..2 {
-                if arrangement == 1 {
+            // arrangements: as generated, shuffled, and shuffled with seeded multiples flags (bits 29-31) on
+            // some cards - legal words that look like cards to anything that masks the flags off
+            for arrangement in 0..3 {
+                if arrangement >= 1 {
                     rng.shuffle(&mut w);
+                }
+                if arrangement == 2 {
+                    for x in w.iter_mut() {
+                        if rng.chance(1, 2) {
+                            *x |= (1 + rng.below(7) as u32) << 29;
+                        }
+                    }
                 }
                 for n in [6usize, 7] {
                     let h = &w[..n];
@@ -563,7 +578,7 @@ pub fn run(ctx: &Ctx) -> Rep {
                     }
                 }
             }
-            st.rep.add("real_card_containers_with_every_index_tuple", 4);
+            st.rep.add("real_card_containers_with_every_index_tuple", 6);
         });
         let (rc, xc) = merge_states(sc);
         rep.merge(rc);
